@@ -32,6 +32,8 @@ def main():
                 d["seed_own"].append(short)
             elif caught:
                 d["seed_sibling"].append("%s (%s)" % (short, ", ".join(caught)))
+            elif r.get("equivalent"):
+                d["own_eq"].append(short)
             else:
                 d["seed_missed"].append(short)
     lines = ["| property | own mutants caught | equivalent | seeded caught by its own check | seeded caught by a sibling check only | missed |",
